@@ -32,7 +32,8 @@ TS = datetime(2021, 3, 10, 12, 43, 30)
 
 
 class Trace:
-    def __init__(self):
+    def __init__(self, scale=1.0):
+        self.scale = scale       # seconds per tick: the deadlines handed to the library are ticks * scale
         self.ev = []
         self.now = 0
         self.keep = []   # keeps observed objects alive so that ids stay unique within a run
@@ -43,7 +44,7 @@ class Trace:
         v = self.now
         self.now += 1
         self.ev.append(("read", v))
-        return float(v)
+        return float(v) * self.scale
 
     def work(self, kind, x):
         """virtual time also passes with work (one tick per analysis / application / scoring), so a deadline can expire
@@ -75,7 +76,7 @@ def setup_worker(ctx):
         tr0 = st["trace"]
         if tr0 is not None:
             tr0.start = tr0.now - 1      # the value the factory has just read
-            tr0.timeout = t
+            tr0.timeout = t / tr0.scale  # in ticks
 
         def t_fun():
             tr = st["trace"]
@@ -142,7 +143,9 @@ def setup_worker(ctx):
 
 def _run(ctx, text, timeout, single=False):
     L, st = ctx["L"], ctx["c13"]
-    tr = st["trace"] = Trace()
+    scale = st.get("scale", 1.0)
+    tr = st["trace"] = Trace(scale)
+    timeout = timeout * scale
     out = []
     err = None
     res = None
@@ -178,6 +181,11 @@ def gen_cases(tier, seed):
         for j, o in enumerate(optsets):
             if tier == "thorough" or (i + j) % 2 == 0:
                 cases.append({"t": t, "mode": "strat", "o": o})
+    # the same obligations with the virtual clock ticking in small units, so that every deadline handed to the library is a
+    # sub-millisecond (1e-4 s per tick) or a very large (1e4 s per tick) positive number: 'positive timeout' has no threshold
+    for t in (["tomorrow 9pm", "1 1 1 1", "am 5. um 8 uhr"] if tier != "thorough" else ["tomorrow 9pm", "1 1 1 1", "am 5. um 8 uhr", "friday 10-6", "8 8 8 8 8"]):
+        for sc in (1e-4, 1e-6, 1e4):
+            cases.append({"t": t, "mode": "strat", "scale": sc, "o": {}})
     if tier == "thorough":
         from ..spec import grammar as G
         r = C.rng(seed, "C13")
@@ -245,7 +253,8 @@ def run_case(case, ctx):
     if ctx["c13"].get("broken"):
         return {"st": "inconc", "msg": ctx["c13"]["broken"]}
     ctx["c13"]["opts"] = dict(case.get("o") or {})
-    key0 = "C13|" + text + ("|cold%s" % case.get("tag") if case["mode"] == "cold" else "") + ("|%s" % sorted(case["o"].items()) if case.get("o") else "")
+    ctx["c13"]["scale"] = case.get("scale", 1.0)
+    key0 = "C13|" + text + ("|cold%s" % case.get("tag") if case["mode"] == "cold" else "") + ("|%s" % sorted(case["o"].items()) if case.get("o") else "") + ("|scale=%g" % case["scale"] if case.get("scale") else "")
     if case["mode"] == "cold":
         return _cold(case, ctx)
     # reference: unlimited run (timeout=0) - also oracle (5)
@@ -278,7 +287,7 @@ def run_case(case, ctx):
         ks = list(range(1, nreads + 2))
     else:
         ks = sorted(set(list(range(1, 61)) + list(range(61, min(nreads, 1500), 7)) + list(range(1500, nreads, 37 if nreads < 20000 else 997)) + list(range(max(1, nreads - 20), nreads + 2))))
-    if case.get("o") and len(ks) > 130:
+    if (case.get("o") or case.get("scale")) and len(ks) > 130:
         # option variants: the first 50 expiry points (initial phase), the last 20 and 60 spread over the rest
         mid = ks[50:-20]
         ks = ks[:50] + mid[:: max(1, len(mid) // 60)] + ks[-20:]
